@@ -129,8 +129,25 @@ class Gen:
                 ov = self.other_vec(ZERO)
                 bad_exp = Quantity(rng.choice([2, 3, 5]) * unit_expr_from_vec(ov, 0, rng))   # (a symbolic exponent makes SymPy rewrite the power)
                 return Pow(self.expr(vec, depth - 1), bad_exp)
+            if rng.random() < 0.12:
+                # a dimensionless base raised to a SYMBOLIC exponent that is dimensionless only after reduction of derived dimensions
+                # (frequency x time, energy / (force x length)): inference accepts it, and so must evaluation on quantities
+                av, _a = rand_dimvec(rng)
+                if any(x != 0 for x in av):
+                    s1, s2 = self.symbol(av), self.symbol(tuple(-x for x in av))
+                    return Mul(Pow(rng.choice([2, Rational(1, 2), 3]), Mul(s1, s2)), self.expr(vec, depth - 1))
             n = rng.choice([2, 3, -1, -2, Rational(1, 2), Rational(3, 2)])
             nn = Fraction(int(n.p), int(n.q)) if isinstance(n, Rational) else Fraction(n)
+            if nn.denominator == 1 and rng.random() < 0.2:
+                # the exponent is written as an expression of a dimensionless quantity and a number (gamma - 1, 2*k): inference
+                # folds it into a plain number, the dimension of the power is the base dimension to THAT number
+                from symplyphysics import Quantity  # pylint: disable=import-outside-toplevel
+                k = rng.choice([1, 2, -1, 3])
+                if rng.random() < 0.5:
+                    written = Quantity(sympy.Integer(int(nn)) + k) - k
+                else:
+                    written = Quantity(Rational(int(nn), 2)) * 2
+                return Pow(self.expr(vscale(vec, 1 / nn), depth - 1), written)
             if nn.denominator != 1:
                 # fractional power: positive base only (a negative base gives a complex value that Min/Max cannot compare)
                 return Pow(self.symbol(vscale(vec, 1 / nn)), n)
